@@ -442,9 +442,9 @@ func scenarios() []scenario {
 		add("two-leader", "3", 2, 1, -1, "A1", "S", d+" R")
 		// a peer that pre-sent every future round: one Accept finalises several rounds
 		add("two-follower", "4", 2, 0, -1, "F3 F2 F1 F0", d+" R")
-		add("multi", "PPPPP", 2, 0, -1, "F4 F3 F2 F1 F0", d+" R")
+		add("multi", "PPP", 2, 0, -1, "F2 F1 F0", d+" R")
 		// the same with the constructor's first message still in the channel when the loop starts (README usage)
-		l = append(l, scenario{Name: "multi/PPPPP/n2/undrained[F4 F3 F2 F1 F0|" + d + " R]@-1", Kind: "multi", Spec: "PPPPP", N: 2, Undrained: true, Threads: []string{"F4 F3 F2 F1 F0", d + " R"}, Bound: -1})
+		l = append(l, scenario{Name: "multi/PPP/n2/undrained[F2 F1 F0|" + d + " R]@-1", Kind: "multi", Spec: "PPP", N: 2, Undrained: true, Threads: []string{"F2 F1 F0", d + " R"}, Bound: -1})
 	}
 	if vkit.Thorough() {
 		for _, d := range []string{"D1", "D2"} {
